@@ -40,14 +40,22 @@ lacking optional parts, under different path arguments) and the deep-nesting fam
 which a recursive extractor gives up - if at all - in the middle of its walk: shape x depth ladder L0/4, 2 L0, 16 L0, 128 L0)
 and the mid-way archive failures of c15_docs ("midfail:<kind>": the container opens and lists, the packed data cannot be
 decoded - 7z x {lzma, lzma2, copy} x {solid, per-file, two folders} with a damaged pack stream or a forged unpack size, zip
-with one damaged member, damaged tar.gz / tar.xz / tar.bz2; quick: 4 kinds, thorough: all 12).
+with one damaged member, damaged tar.gz / tar.xz / tar.bz2; quick: 4 kinds, thorough: all 12),
+the drawing objects in running text of c15_docs ("drawobj:<container>:<object>": one paragraph of an odt / odp / ods / odg holds
+one drawing object - frame with text box, rect, ellipse, custom shape, group; with and without svg:title / svg:desc - between two
+words; the walk over one object kind must not reconfigure the walk over the next; quick: {odt, odp, ods} x {frame-box, rect} +
+odt custom shape = 7, thorough: 4 containers x 7 objects = 28) and the encrypted PDFs of c15_docs ("encpdf:<form>": the same
+document under every form of the standard security handler that verif.gen.pdfw writes - RC4-40, RC4-128, crypt filter V2,
+AESV2 = AES-128, AESV3 = AES-256, and non-empty user passwords - the forms differ in which third-party machinery the reader
+needs and when; quick: rc4-128, aesv2, aesv3, aesv2-pw, thorough: all 8).
 
 Two kinds of histories:
   warm  (fmt "hist")  the worker first performs every operation once (lazy imports, one-way initialisations), then runs
         all ordered pairs over the whole operation alphabet and all triples over a sub-alphabet.
   cold  (fmt "cold")  every history runs in its own process that has done nothing but `import sharepoint2text`
         (c15_fresh: fork of an import-only zygote): all ordered pairs (thorough: + triples over 3 documents) over
-        {extract, restore} x the restore documents. This is where the ORDER OF FIRST USES is explored: lazily built
+        {extract, restore} x the restore documents + extract x {mid-way failing archives (quick 2), every encpdf form of the
+        tier, drawobj documents (quick: 2, thorough: the 7 odt ones)}. This is where the ORDER OF FIRST USES is explored: lazily built
         module-level tables must come out the same whichever operation touches them first.
 
 State compared (c15_state): after EVERY step - of the warm-up too, and of cold histories - the interpreter/process-wide
@@ -55,7 +63,10 @@ settings (recursion limit, switch interval, decimal context, locale, socket time
 signal handlers, gc, csv field limit, logging/warnings switches, ... see c15_state.settings); after every warm history
 additionally the pypdf patch depth, archive configuration, temp dir listing, open descriptors, warnings filters, logger
 configuration, mimetypes tables, thread count, and the identity of every module-level / class-level binding of the
-library's own and of all loaded third-party modules (c15_state.ModState: generic "patched third-party function" detector).
+library's own and of all loaded third-party modules (c15_state.ModState: generic "patched third-party function" detector;
+a binding to a plain function is identified by the function's code object, globals, defaults and the objects its closure
+captured, so an idempotent patch that is applied once more - the AES provider on every encrypted PDF - is no change, whereas a
+wrapper around the previous value, or an original that is not put back, is).
 Temporary files: every worker / cold child has a private, initially empty temp dir; it must be empty again after the FIRST
 execution of every operation (warm-up) and at the end of every cold history, and unchanged after every warm history.
 """
@@ -844,7 +855,7 @@ def _load(doc):
         if doc not in _GEN:
             _GEN.update(_gen_docs())
         return _GEN[doc]
-    if doc.startswith(("deep:", "midfail:")):
+    if doc.startswith(("deep:", "midfail:", "drawobj:", "encpdf:")):
         if doc not in _GEN:
             _GEN[doc] = c15_docs.load(doc)
         return _GEN[doc]
@@ -1343,7 +1354,9 @@ def run(ctx):
     failing = [f"trunc:{a}" for a in alpha[:: max(1, len(alpha) // 4)]][:4]
     deep = c15_docs.family(ctx.tier)
     midfail = c15_docs.midfail_family(ctx.tier)
-    alpha = alpha + failing + sorted(_gen_docs()) + deep + midfail
+    drawobj = c15_docs.drawobj_family(ctx.tier)
+    encpdf = c15_docs.encpdf_family(ctx.tier)
+    alpha = alpha + failing + sorted(_gen_docs()) + deep + midfail + drawobj + encpdf
     base, _, info = _baselines(alpha, ctx.ncpu, herr)
     alpha = [a for a in alpha if a in base]
     # restore operations: one document per result class - the one with the smallest stored payload
@@ -1388,7 +1401,10 @@ def run(ctx):
         fails += [tuple(x) for x in r["fails"]]
     mark("warm_histories")
     # cold histories: every one in its own import-only process
-    cops = [x for d in rdocs for x in (d, f"restore:{d}")] + [m for m in (midfail[:2] if quick else midfail) if m in base]
+    # + (extract only) the mid-way failing archives, every encrypted-PDF form and drawing objects in running text: what the FIRST
+    # document of a process sets up (or leaves set up) in third-party / module-level machinery must not decide what the second gives
+    cold_extra = (midfail[:2] if quick else midfail) + encpdf + (drawobj[:2] if quick else [x for x in drawobj if x.split(":")[1] == "odt"])
+    cops = [x for d in rdocs for x in (d, f"restore:{d}")] + [m for m in cold_extra if m in base]
     cpairs = [[a, b] for a in cops for b in cops]
     csub = [x for d in rdocs[:: max(1, len(rdocs) // 3)][:3] for x in (d, f"restore:{d}")] + [m for m in midfail[:1] if m in base]
     ctriples = [] if quick else [[a, b, c] for a in csub for b in csub for c in csub]
@@ -1421,7 +1437,7 @@ def run(ctx):
                          "outcomes": dict(list(sorted(outcomes.items()))[:60])},
            "real_extraction_pairs": x2cov,
            "histories": {"histories": hev, "extractions": htrans, "alphabet_size": len(ops), "documents": len(alpha), "restore_operations": len(rops),
-                         "deep_documents": deep, "midfail_documents": midfail, "pairs": len(pairs), "triples": len(triples), "triple_alphabet": sub,
+                         "deep_documents": deep, "midfail_documents": midfail, "drawing_object_documents": drawobj, "encrypted_pdf_documents": encpdf, "pairs": len(pairs), "triples": len(triples), "triple_alphabet": sub,
                          "watched_module_namespaces": watched, "settings_watched": sorted(c15_state.settings())},
            "helper_histories": {"histories": hh, "helper": "pdf_extractor._ttf_get_glyph_features over _FONT_CACHE" if _ttf_helper() else "absent (skipped)",
                                 "fonts": [f for f in TTF_FONTS if os.path.exists(f)], "glyph_lists": [list(x) for x in TTF_GLYPH_LISTS],
@@ -1436,11 +1452,11 @@ def run(ctx):
                    "x2_documents discovered by reading settings + library module state after every library line of a solo extraction, then every "
                    "active document x every document in 2 threads with scheduling points before / after the write lines, <= 2 (thorough 3; 3 threads 2) "
                    "preemptions, each result == the document alone, settings / library bindings / repeated extractions unchanged at quiescence; warm histories: all ordered pairs over the operation alphabet (extract + "
-                   "serialise every fixture / truncated / generated / deep-nesting / mid-way failing archive document; restore the fresh-process payload of one document "
+                   "serialise every fixture / truncated / generated / deep-nesting / mid-way failing archive / drawing-object-in-text (c15_docs drawobj: container x object kind) / encrypted-PDF (c15_docs encpdf: one per security-handler form) document; restore the fresh-process payload of one document "
                    "per result class) and all triples over a sub-alphabet, each step compared with a fresh-process baseline, process-wide "
                    "settings compared after every step (warm-up included), full process-state snapshot and module-binding identities after "
                    "every history; cold histories: all ordered pairs (thorough: + triples over 3 documents) over {extract, restore} x restore "
-                   "documents (+ mid-way failing archives, extract only), each history in its own import-only process, results against the "
+                   "documents (+ mid-way failing archives, encrypted-PDF forms and drawing-object documents, extract only), each history in its own import-only process, results against the "
                    "single-operation fresh process, settings after every step, private temp dir empty at the end; temp dir also empty after the "
                    "first execution of every operation in a warm worker",
            "cost": phase,
@@ -1448,7 +1464,7 @@ def run(ctx):
                                           "kernel_targets_preemptions_(2_threads,3_threads)": {k: v["quick" if quick else "thorough"] for k, v in KERNEL_BOUNDS.items()},
                                           "real_extraction_pairs_preemptions_(2_threads,3_threads)": X2_BOUNDS["quick" if quick else "thorough"],
                                           "real_extraction_documents": len(xdocs), "write_line_visits_per_line": X2_COLLAPSE,
-                                          "midfail_archives": len(midfail),
+                                          "midfail_archives": len(midfail), "drawing_object_documents": len(drawobj), "encrypted_pdf_forms": len(encpdf),
                                           "history_length_pairs_over": len(ops), "history_length_triples_over": len(sub),
                                           "cold_pairs_over": len(cops), "cold_triples_over": len(csub) if not quick else 0,
                                           "deep_nesting_depths": sorted({c15_docs.MULT[x.split(":")[2]] for x in deep}), "restore_classes": len(rops)}}
@@ -1463,6 +1479,8 @@ def run(ctx):
                             "functools.lru_cache helpers are implemented in C with their own lock and are not explored",
                             "memory-model effects below the GIL are not modelled",
                             "a forked child of a process that only imported the package stands for a fresh interpreter after that import",
+                            "a module- / class-level binding to a plain function counts as unchanged when it is rebound to a function with the same code "
+                            "object, globals, defaults and captured objects (re-created by the same def): behaviourally the same function",
                             "module-level containers (caches, registries) are watched by identity only; what they hold is judged through the results "
                             "of the following operations",
                             "the warm-up (every operation once per worker, in sorted order) may perform one-way lazy initialisations; their "
